@@ -206,6 +206,4 @@ func cmdSweep(args []string) {
 	fmt.Printf("functions %d  out-of-subset %d  obligations %d  failing %d\n", n, oos, tot, fails)
 }
 
-func cmdCheck(args []string)    { fmt.Println("not implemented"); os.Exit(2) }
-func cmdReplay(args []string)   { fmt.Println("not implemented"); os.Exit(2) }
 func cmdSelftest(args []string) { fmt.Println("not implemented"); os.Exit(2) }
